@@ -1194,3 +1194,82 @@ Lemma ti_sticky_offset_witness :
             ti_offset m = 15 /\ ti_cursor m = 20 /\ cl_width (ti_content m) = 20 /\
             ti_draw m 80 = DrawDone 15 (Some 5).
 Proof. vm_compute. eexists; repeat split; reflexivity. Qed.
+
+(* ================================================================== readings used by props/C17.v *)
+
+Corollary ti_refines_ideal chars alnum A :
+  (forall cs, in_alpha A cs -> chars (cl_text cs) = Some cs) ->
+  forall e0 off paste pr os,
+    in_alpha A (i_text e0) -> (exists ps, in_alpha A ps /\ paste = cl_text ps) ->
+    Forall (ti_op_ok A) os ->
+    exists m', ti_run chars alnum (ti_of_ideal e0 off paste pr) os = Some m' /\
+      let e' := i_run (ti_isw alnum) e0 (ti_abs chars paste os) in
+      ti_content m' = i_text e' /\ ti_cursor m' = i_index e' /\
+      chars (cl_text (ti_content m')) = Some (ti_content m') /\
+      0 <= ti_cursor m' <= zlen (ti_content m').
+Proof.
+  intros Hst e0 off paste pr os HA HP Hos.
+  destruct (ti_run_refines chars alnum A Hst e0 off paste pr os HA HP Hos) as (off' & H1 & H2).
+  eexists; split; [exact H1|]. cbv zeta. cbn [ti_of_ideal ti_content ti_cursor].
+  repeat split; auto.
+  - apply (index_le_text (i_run (ti_isw alnum) e0 (ti_abs chars paste os))).
+  - apply (index_le_text (i_run (ti_isw alnum) e0 (ti_abs chars paste os))).
+Qed.
+
+Corollary tf_cursor_in_range seg A :
+  (forall cs, in_alpha A cs -> seg (concat cs) = Some cs) ->
+  forall e0 os st' log, in_alpha A (i_text e0) -> Forall (tf_op_ok A) os ->
+    tf_run seg (tf_of_ideal e0) os = Some (st', log) ->
+    exists cs, seg (tf_value st') = Some cs /\ 0 <= tf_cursor st' <= zlen cs /\ tf_n st' = zlen cs.
+Proof.
+  intros Hst e0 os st' log HA Hos Hrun.
+  destruct (tf_refines_ideal seg A Hst e0 os HA Hos) as (st2 & log2 & H1 & H2 & H3 & H4 & H5).
+  rewrite Hrun in H1; injection H1 as <- <-. eauto.
+Qed.
+
+Corollary ti_cursor_in_range chars alnum A :
+  (forall cs, in_alpha A cs -> chars (cl_text cs) = Some cs) ->
+  forall e0 off paste pr os m',
+    in_alpha A (i_text e0) -> (exists ps, in_alpha A ps /\ paste = cl_text ps) ->
+    Forall (ti_op_ok A) os ->
+    ti_run chars alnum (ti_of_ideal e0 off paste pr) os = Some m' ->
+    0 <= ti_cursor m' <= zlen (ti_content m').
+Proof.
+  intros Hst e0 off paste pr os m' HA HP Hos Hrun.
+  destruct (ti_refines_ideal chars alnum A Hst e0 off paste pr os HA HP Hos) as (m2 & H1 & _ & _ & _ & H5).
+  rewrite Hrun in H1; injection H1 as <-. exact H5.
+Qed.
+
+(* the callback protocol spelled out *)
+Corollary tf_callbacks_reading seg st o st' log :
+  tf_handle seg st o = Some (st', log) ->
+  match o with
+  | TKey TkEnter => log = [CbSubmit (tf_value st)]
+  | TText _ | TKey _ | TIgnored =>
+      (tf_value st' <> tf_value st -> log = [CbChange (tf_value st')]) /\
+      (tf_value st' = tf_value st -> log = [])
+  | _ => log = []
+  end.
+Proof.
+  intros H. pose proof (tf_callbacks_exact seg st o st' log H) as Hc.
+  assert (Hnil : forall l, list_eqb cb_eqb l [] = true -> l = []) by (intros [|? ?]; [reflexivity|discriminate]).
+  assert (Hone : forall l c, list_eqb cb_eqb l [c] = true -> l = [c]).
+  { intros [|a [|b t]] c; cbn; try discriminate; [|intros E; apply andb_true_iff in E as [_ E]; discriminate].
+    rewrite andb_true_r. destruct a, c; cbn; try discriminate; intros E; apply zlist_eqb_eq in E; now subst. }
+  assert (Hev : tf_is_event o = true -> o <> TKey TkEnter ->
+                tf_cb_ok o (tf_value st) (tf_value st') log = true ->
+                (tf_value st' <> tf_value st -> log = [CbChange (tf_value st')]) /\
+                (tf_value st' = tf_value st -> log = [])).
+  { intros He Hne Hok.
+    assert (Hok' : (if negb (zlist_eqb (tf_value st) (tf_value st'))
+                    then list_eqb cb_eqb log [CbChange (tf_value st')] else list_eqb cb_eqb log []) = true).
+    { destruct o as [s|k| |s|i| | | | |s]; try discriminate; try exact Hok.
+      destruct k; try exact Hok. congruence. }
+    destruct (zlist_eqb (tf_value st) (tf_value st')) eqn:E; cbn in Hok'.
+    - apply zlist_eqb_eq in E. split; [congruence|]. intros _. now apply Hnil.
+    - split; [intros _; now apply Hone|]. intros E2. rewrite E2, zlist_eqb_refl in E. discriminate. }
+  destruct o as [s|k| |s|i| | | | |s]; cbn [tf_cb_ok tf_is_event andb] in Hc; auto.
+  - apply Hev; auto; discriminate.
+  - destruct k; try (apply Hev; auto; discriminate). now apply Hone.
+  - apply Hev; auto; discriminate.
+Qed.
